@@ -635,16 +635,20 @@ pub mod ctl {
             let n2 = 1usize << r.range(3, 4);
             // looking sides: (cols 0,1 filtered by col 4), (cols 2, 3+next… kept simple: cols 2,3 filtered by col 5)
             let lin = r.coin();
-            let side_a = Side { table: 0, columns: vec![ColSpec::single(0), ColSpec::single(1)], filter: FilterSpec { products: vec![], constants: vec![ColSpec::single(4)] } };
+            // tuples of three columns (0, 1, 3) in every second system: the challenge combination
+            // `Σ tᵢ·βⁱ + γ` must weigh EVERY entry with its own power of β
+            let wide = sys % 2 == 1;
+            let data_cols: Vec<usize> = if wide { vec![0, 1, 3] } else { vec![0, 1] };
+            let side_a = Side { table: 0, columns: data_cols.iter().map(|&c| ColSpec::single(c)).collect(), filter: FilterSpec { products: vec![], constants: vec![ColSpec::single(4)] } };
             let side_b = Side {
                 table: 0,
                 columns: if lin { vec![ColSpec { lc: vec![(2, 3), (3, 1)], next: vec![], c: 5 }, ColSpec::single_next(3)] } else { vec![ColSpec::single(2), ColSpec::single(3)] },
                 filter: FilterSpec { products: vec![], constants: vec![ColSpec::single(5)] },
             };
-            let side_c = Side { table: 2, columns: vec![ColSpec::single(1), ColSpec::single(0)], filter: FilterSpec { products: vec![(ColSpec::single(4), ColSpec::single(5))], constants: vec![] } };
-            let looked = Side { table: 1, columns: vec![ColSpec::single(0), ColSpec::single(1)], filter: FilterSpec { products: vec![], constants: vec![ColSpec::single(2)] } };
+            let side_c = Side { table: 2, columns: if wide { vec![ColSpec::single(1), ColSpec::single(0), ColSpec::single(3)] } else { vec![ColSpec::single(1), ColSpec::single(0)] }, filter: FilterSpec { products: vec![(ColSpec::single(4), ColSpec::single(5))], constants: vec![] } };
+            let looked = Side { table: 1, columns: data_cols.iter().map(|&c| ColSpec::single(c)).collect(), filter: FilterSpec { products: vec![], constants: vec![ColSpec::single(2)] } };
             let mut looking = vec![side_a.clone()];
-            if r.coin() { looking.push(side_b.clone()); }
+            if !wide && r.coin() { looking.push(side_b.clone()); }
             if three { looking.push(side_c.clone()); }
             let spec = CtlSpec { looking, looked };
             // traces: random cells, boolean filters; the looked table collects every filtered pair
@@ -654,19 +658,19 @@ pub mod ctl {
             let mut t1 = mk(r, n1);
             for row in t1.iter_mut() { row[2] = F::ZERO; }
             let mut traces: Vec<Vec<Vec<F>>> = vec![t0, t1, t2];
-            let mut pairs: BTreeMap<(u64, u64), F> = Default::default();
+            let mut pairs: BTreeMap<Vec<u64>, F> = Default::default();
             for s in &spec.looking {
                 let rows = &traces[s.table];
                 for rr in 0..rows.len() {
                     let w = s.filter.eval_row(rows, rr);
-                    if w != F::ZERO { *pairs.entry((s.columns[0].eval_row(rows, rr).to_canonical_u64(), s.columns[1].eval_row(rows, rr).to_canonical_u64())).or_insert(F::ZERO) += w; }
+                    if w != F::ZERO { *pairs.entry(s.columns.iter().map(|c| c.eval_row(rows, rr).to_canonical_u64()).collect()).or_insert(F::ZERO) += w; }
                 }
             }
             if pairs.len() > n1 { e.count("ctl: looked table too short for the generated pairs (skipped)"); continue; }
-            for (i, ((a, b), w)) in pairs.iter().enumerate() { traces[1][i][0] = fe(*a); traces[1][i][1] = fe(*b); traces[1][i][2] = *w; }
+            for (i, (t, w)) in pairs.iter().enumerate() { for (j, &c) in data_cols.iter().enumerate() { traces[1][i][c] = fe(t[j]); } traces[1][i][2] = *w; }
             let boolean = |c: usize| (Kind::All, mul(loc(c), sub(loc(c), lit(1))));
             let airs3: [Arc<Air>; 3] = [table_air(degree, vec![boolean(4), boolean(5)]), table_air(degree, vec![]), table_air(degree, vec![boolean(4)])];
-            let what = format!("CTL system {sys}: D={degree} tables={} looking sides={} linear/next columns={lin} rows=({n0},{n1},{n2})", if three { 3 } else { 2 }, spec.looking.len());
+            let what = format!("CTL system {sys}: D={degree} tuple width={} tables={} looking sides={} linear/next columns={lin} rows=({n0},{n1},{n2})", data_cols.len(), if three { 3 } else { 2 }, spec.looking.len());
             let run = |traces: &Vec<Vec<Vec<F>>>, spec: &CtlSpec| -> String {
                 if three {
                     outcome::<3>(&airs3, &[traces[0].clone(), traces[1].clone(), traces[2].clone()], std::slice::from_ref(spec), &config)
@@ -704,6 +708,16 @@ pub mod ctl {
             let mut tr = traces.clone(); let rr = r.below(pairs.len().max(1) as u64) as usize; tr[1][rr][2] += F::ONE; variants.push((format!("looked multiplicity (1,{rr}) + 1"), tr));
             let mut tr = traces.clone(); let rr = r.below(n1 as u64) as usize; tr[1][rr][3] += F::ONE; variants.push((format!("unrelated cell (1,{rr},3) altered"), tr));
             if three { let mut tr = traces.clone(); let rr = r.below(n2 as u64) as usize; tr[2][rr][1] += F::ONE; variants.push((format!("second looking table value (2,{rr},1) altered"), tr)); }
+            if wide {
+                // corruptions that keep the first entry and the SUM of the others: different tuples all the same
+                if let Some(rr) = (0..n0).find(|&rr| traces[0][rr][4] == F::ONE && traces[0][rr][1] != traces[0][rr][3]) {
+                    let mut tr = traces.clone(); tr[0][rr].swap(1, 3); variants.push((format!("looking tuple (0,{rr}): 2nd and 3rd entries exchanged"), tr));
+                    let mut tr = traces.clone(); tr[0][rr][1] += F::ONE; tr[0][rr][3] -= F::ONE; variants.push((format!("looking tuple (0,{rr}): 2nd entry + 1, 3rd entry - 1"), tr));
+                }
+                if let Some(rr) = (0..pairs.len()).find(|&rr| traces[1][rr][1] != traces[1][rr][3]) {
+                    let mut tr = traces.clone(); tr[1][rr].swap(1, 3); variants.push((format!("looked tuple (1,{rr}): 2nd and 3rd entries exchanged"), tr));
+                }
+            }
             for (name, tr) in variants {
                 let holds = spec.holds(&tr[..nt]);
                 e.case("ctlsat: corrupted system", ctlsat_request(&tr[..nt], std::slice::from_ref(&spec)), || if holds { "HOLDS".into() } else { "FAILS".to_string() });
